@@ -1074,7 +1074,10 @@ class Exec:
     def s_IfStmt(self, n: dict) -> None:
         inner = n["inner"]
         c = self.nonzero(self.eval(inner[0]))
-        if c not in ("true", "false") and _simple_block(inner[1]) and (len(inner) < 3 or _simple_block(inner[2])) and _pure_cond(inner[0]):
+        if c not in ("true", "false") and _simple_block(inner[1]) and (len(inner) < 3 or _simple_block(inner[2])) and _pure_cond(inner[0]) \
+                and not any(isinstance(self.vars.get(v), tuple) for arm in inner[1:3] for v in _assigned_ids(arm)):
+            # (a local whose address is taken lives in a memory region: assignments to it are stores, which this merge
+            #  does not guard -- such blocks take the ordinary path split below)
             # both arms only assign register scalars: execute both under their guard and merge (no path split).
             # This is what keeps a sequence of independent saturation tests linear instead of exponential.
             before = dict(self.vars)
@@ -1882,6 +1885,21 @@ def _pure_cond(n: dict) -> bool:
     if k in ("ArraySubscriptExpr", "MemberExpr"):
         return False  # memory reads carry bounds obligations: keep them on their own path
     return all(_pure_cond(ch) for ch in n.get("inner", []))
+
+
+def _assigned_ids(n: dict) -> typing.List[str]:
+    """ids of the variables assigned (plain `=`) anywhere in a simple block"""
+    out = []
+    if n.get("kind") == "BinaryOperator" and n.get("opcode") == "=":
+        lhs = n["inner"][0]
+        while lhs.get("kind") in ("ParenExpr",):
+            lhs = lhs["inner"][0]
+        if lhs.get("kind") == "DeclRefExpr":
+            out.append(lhs["referencedDecl"]["id"])
+    for ch in n.get("inner", []) or []:
+        if isinstance(ch, dict):
+            out += _assigned_ids(ch)
+    return out
 
 
 def _simple_block(n: dict) -> bool:
